@@ -20,6 +20,8 @@ import BHS.Model.Query
 import BHS.Spec.BestChain
 import BHS.Proofs.QueryPage
 import BHS.Proofs.QueryLocator
+import BHS.Proofs.Fields
+import BHS.Props.C01
 
 set_option linter.unusedSectionVars false
 
@@ -356,5 +358,97 @@ theorem C13_stop_genesis_counterexample :
       exRoot.height ≤ startHeight exStore [3] ∧ stopHeight exStore exRoot.hash = 0 ∧
       getHeaders exStore 0 [3] exRoot.hash =
         .ok [exRow 3 4 3 3 2 12885098499 .lc, exRow 6 7 4 6 3 17180131332 .lc, exTip] := by decide
+
+/-! ### for every store reachable by ingestion
+The theorems above restated for `run cfg [g] hist` — the store after ANY ingestion history (reorganisations, stale
+blocks, orphans, duplicates, forbidden and zero-work headers) from a root row `g`; the chain invariant comes from
+`C01_canonical`, so no `Inv` hypothesis is left. The protocol's zero hash is the root's previous hash `g.prev`; that
+no stored row has it is derived (`C13_zero_not_stored_reachable`), not assumed. -/
+section Reachable
+open BHS.Props.C01 (IsRoot HashAvoids C01_canonical)
+
+/-- every reachable store still holds its root row -/
+theorem C13_root_stored_reachable (cfg : Cfg H) (g : Row H) (hg : IsRoot g) (hz : HashAvoids cfg g.prev)
+    (hist : List (Src H)) : g ∈ run cfg [g] hist :=
+  (WF.run hg.1 hz hist (C01.C01_inv_init cfg g hg).1 (List.mem_singleton.2 rfl)).2
+
+/-- no row of a reachable store has the zero hash (the root's previous hash) -/
+theorem C13_zero_not_stored_reachable (cfg : Cfg H) (g : Row H) (hg : IsRoot g) (hz : HashAvoids cfg g.prev)
+    (hist : List (Src H)) : ∀ r ∈ run cfg [g] hist, r.hash ≠ g.prev :=
+  C13_zero_not_stored cfg _ g (C01_canonical cfg g hg hz hist).1.1 (C13_root_stored_reachable cfg g hg hz hist) hg.1
+
+theorem C13_locator_reachable (cfg : Cfg H) (g : Row H) (hg : IsRoot g) (hz : HashAvoids cfg g.prev)
+    (hist : List (Src H)) (t : Row H) (htip : getTip (run cfg [g] hist) = some t) :
+    locator (run cfg [g] hist) =
+      (lcRowsAt (run cfg [g] hist) (locHeights (t.height + 1) t.height 1 0)).map (·.hash) ∧
+    (lcRowsAt (run cfg [g] hist) (locHeights (t.height + 1) t.height 1 0)).map (·.height) =
+      locHeights (t.height + 1) t.height 1 0 ∧
+    ∀ r ∈ lcRowsAt (run cfg [g] hist) (locHeights (t.height + 1) t.height 1 0),
+      r ∈ run cfg [g] hist ∧ r.st = .lc :=
+  C13_locator cfg _ t (C01_canonical cfg g hg hz hist).1 htip
+
+/-- the locator of every reachable store starts at the tip and ends at THE root `g` the history started from -/
+theorem C13_locator_ends_reachable (cfg : Cfg H) (g : Row H) (hg : IsRoot g) (hz : HashAvoids cfg g.prev)
+    (hist : List (Src H)) (t : Row H) (htip : getTip (run cfg [g] hist) = some t) :
+    (locator (run cfg [g] hist)).head? = some t.hash ∧ (locator (run cfg [g] hist)).getLast? = some g.hash ∧
+    (∀ x ∈ locator (run cfg [g] hist), ∃ r ∈ run cfg [g] hist, r.st = .lc ∧ r.hash = x) ∧
+    ((lcRowsAt (run cfg [g] hist) (locHeights (t.height + 1) t.height 1 0)).map (·.height)).Pairwise (· > ·) :=
+  C13_locator_ends cfg _ t g (C01_canonical cfg g hg hz hist).1 htip (C13_root_stored_reachable cfg g hg hz hist) hg.1
+
+/-- (non-empty locator, stop hash not the height-0 row: the two recorded deviations stay excluded) -/
+theorem C13_getheaders_partial_reachable (cfg : Cfg H) (g : Row H) (hg : IsRoot g) (hz : HashAvoids cfg g.prev)
+    (hist : List (Src H)) (loc : List H) (stop : H) (rows : List (Row H)) (hloc : loc ≠ [])
+    (hstop0 : ∀ r ∈ run cfg [g] hist, r.st = .lc → r.hash = stop → r.height ≠ 0)
+    (hok : getHeaders (run cfg [g] hist) g.prev loc stop = .ok rows) :
+    ∃ hi,
+      ((∃ sr ∈ run cfg [g] hist, sr.st = .lc ∧ sr.hash = stop ∧ startHeight (run cfg [g] hist) loc < sr.height ∧
+          hi = min sr.height (startHeight (run cfg [g] hist) loc + Gen.maxCFHeadersPerMsg)) ∨
+       ((∀ r ∈ run cfg [g] hist, r.st = .lc → r.hash ≠ stop) ∧
+          hi = startHeight (run cfg [g] hist) loc + Gen.maxCFHeadersPerMsg)) ∧
+      (∀ r, r ∈ rows ↔ r ∈ run cfg [g] hist ∧ r.st = .lc ∧ startHeight (run cfg [g] hist) loc < r.height ∧
+        r.height ≤ hi) ∧
+      rows.map (·.height) = List.range' (startHeight (run cfg [g] hist) loc + 1) rows.length ∧
+      (∀ i (hi' : i + 1 < rows.length), rows[i + 1].prev = rows[i].hash) ∧
+      (∀ r0, rows.head? = some r0 → ∃ p ∈ run cfg [g] hist, p.st = .lc ∧
+        p.height = startHeight (run cfg [g] hist) loc ∧ r0.prev = p.hash) ∧
+      rows.length ≤ Gen.maxCFHeadersPerMsg :=
+  C13_getheaders_partial cfg _ g.prev loc stop rows (C01_canonical cfg g hg hz hist).1
+    (C13_zero_not_stored_reachable cfg g hg hz hist) hloc hstop0 hok
+
+theorem C13_stop_lower_reachable (cfg : Cfg H) (g : Row H) (hg : IsRoot g) (hz : HashAvoids cfg g.prev)
+    (hist : List (Src H)) (loc : List H) (sr : Row H) (hloc : loc ≠ []) (hsr : sr ∈ run cfg [g] hist)
+    (hsl : sr.st = .lc) (hpos : 0 < sr.height) (hle : sr.height ≤ startHeight (run cfg [g] hist) loc) :
+    getHeaders (run cfg [g] hist) g.prev loc sr.hash = .error .stopLower :=
+  C13_stop_lower cfg _ g.prev loc sr (C01_canonical cfg g hg hz hist).1
+    (C13_zero_not_stored_reachable cfg g hg hz hist) hloc hsr hsl hpos hle
+
+theorem C13_getheaders_cap_reachable (cfg : Cfg H) (g : Row H) (hg : IsRoot g) (hz : HashAvoids cfg g.prev)
+    (hist : List (Src H)) (zero : H) (loc : List H) (stop : H) (rows : List (Row H))
+    (hok : getHeaders (run cfg [g] hist) zero loc stop = .ok rows) : rows.length ≤ Gen.maxCFHeadersPerMsg :=
+  C13_getheaders_cap cfg _ zero loc stop rows (C01_canonical cfg g hg hz hist).1 hok
+
+/-- the tip of the store C01's history produces -/
+def exTipR : Row Nat :=
+  { id := 3, hash := 4, prev := 3, merkle := 3, height := 2, version := 1, time := 3, bits := 486604799,
+    nonce := 3, work := 4295032833, cum := 12885098499, st := .lc }
+
+/-- non-vacuity on the history of C01 (fork, tie, reorganisation, orphan): the locator runs from the tip (hash 4) over
+    the sibling that won the reorganisation (hash 3) down to the root; getheaders after locator entry 3 sends the tip;
+    a stop at the start sends nothing -/
+example : IsRoot C01.exRoot ∧ HashAvoids C01.exCfg C01.exRoot.prev ∧
+    getTip (run C01.exCfg [C01.exRoot] C01.exHist) = some exTipR ∧
+    locator (run C01.exCfg [C01.exRoot] C01.exHist) = [4, 3, 1000] ∧
+    (locator (run C01.exCfg [C01.exRoot] C01.exHist)).getLast? = some C01.exRoot.hash ∧
+    getHeaders (run C01.exCfg [C01.exRoot] C01.exHist) C01.exRoot.prev [3, 2] C01.exRoot.prev = .ok [exTipR] ∧
+    getHeaders (run C01.exCfg [C01.exRoot] C01.exHist) C01.exRoot.prev [3, 2] 3 = .error .stopLower :=
+  ⟨by decide, C01.exAvoids, by decide, by decide,
+    (C13_locator_ends_reachable C01.exCfg C01.exRoot (by decide) C01.exAvoids C01.exHist exTipR (by decide)).2.1,
+    by decide,
+    C13_stop_lower_reachable C01.exCfg C01.exRoot (by decide) C01.exAvoids C01.exHist [3, 2]
+      { id := 2, hash := 3, prev := 1000, merkle := 2, height := 1, version := 1, time := 2, bits := 486604799,
+        nonce := 2, work := 4295032833, cum := 8590065666, st := .lc }
+      (by decide) (by decide) (by decide) (by decide) (by decide)⟩
+
+end Reachable
 
 end BHS.Props.C13
